@@ -42,7 +42,7 @@ ENGINES_META = [
 CHECKS = {
     'C03': dict(engine='pipeline', design_ref='5 (C03)', note=PIPE_NOTE,
                 technique='deterministic simulation (virtual-time asyncio loop) + seeded schedule/fault search + reference-model oracle',
-                text='Seeded search over interleavings of express/Data/Nack/timer/cancel/shutdown and validator latencies in both front-ends, decided by an executable PIT reference model over the recorded history (exactly-once, right outcome, no internal error, nothing left pending). Callers may await at once, late (up to three lifetimes after express()) or never; the system clock is stepped forwards and backwards while Interests are out, and such runs are judged like any other (a lifetime is a duration); streams die with EOF, reset, time-out, abort, broken pipe or unreachable host, run() of the face raises, a send() fails, the caller re-uses its name buffers after express(), asks for the raw packet, expresses the root prefix. Sampling, not proof: right level because the property is quantified over schedules.',
+                text='Seeded search over interleavings of express/Data/Nack/timer/cancel/shutdown and validator latencies in both front-ends, decided by an executable PIT reference model over the recorded history (exactly-once, right outcome, no internal error, nothing left pending). Callers may await at once, late (up to three lifetimes after express()) or never; the system clock is stepped forwards and backwards while Interests are out, and such runs are judged like any other (a lifetime is a duration); streams die with EOF, reset, time-out, abort, broken pipe or unreachable host, run() of the face raises, a send() fails, the caller re-uses its name buffers after express(), asks for the raw packet, expresses the root prefix; a bare CancelledError out of an await nobody cancelled is a violation (a shutdown is reported as InterestCanceled, it does not cancel the caller). Sampling, not proof: right level because the property is quantified over schedules.',
                 level='exploration', real=PIPE_REAL, stub=STUB_COMMON,
                 rule='seed -> scripted scenario (1-7 Interests on colliding names, Data/Nack/cancel/shutdown events '
                      'aimed at the lattice around each deadline and validator completion); a run is non-trivial when '
@@ -50,7 +50,7 @@ CHECKS = {
                      'order signature (SHA-1 over the executed sequence of event kinds and entity indices)'),
     'C04': dict(engine='pipeline', design_ref='5 (C04)', note=PIPE_NOTE,
                 technique='deterministic simulation (virtual-time asyncio loop) + seeded schedule/fault search + reference-model oracle',
-                text='Seeded attach/detach histories and Interest arrivals against a dict model of longest-prefix dispatch; reply callbacks fired on a lattice around the Interest deadline (also after a step of the system clock, and after the face went down). In the legacy front-end handlers are also attached through register()/unregister() against a fake forwarder that acknowledges, refuses, nacks or ignores each command; prefixes are given as URI, component lists, wire bytes, bytearray and memoryview (overwritten after the call), with long typed components.',
+                text='Seeded attach/detach histories and Interest arrivals against a dict model of longest-prefix dispatch; reply callbacks fired on a lattice around the Interest deadline (also after a step of the system clock, and after the face went down). In the legacy front-end handlers are also attached through register()/unregister() against a fake forwarder that acknowledges, refuses, nacks or ignores each command; prefixes are given as URI, component lists, wire bytes, bytearray, memoryview and read-only views over buffers the caller owns (overwritten once the call has returned), with long typed components. The direct face keeps the buffers it was handed by send() and re-checks them later: a transport may queue what it is given without copying.',
                 level='exploration', real=PIPE_REAL, stub=STUB_COMMON,
                 rule='seed -> attach/detach history over a small prefix tree in random name representations, incoming '
                      'Interests at/below/above/beside prefixes, replies aimed at the lattice around the Interest '
@@ -72,7 +72,7 @@ CHECKS = {
                      'inside a packet (framing); distinct = order signature'),
     'C10': dict(engine='pipeline', design_ref='5 (C10)', note=PIPE_NOTE,
                 technique='deterministic simulation (virtual-time asyncio loop) + seeded schedule/fault search + reference-model oracle',
-                text='Differential simulation: each scenario is executed with envelopes kept and stripped and compared observable by observable; Nack reasons (also absent), fragment rejection (every FragIndex/FragCount combination), out-of-order headers and PIT-token echo are checked with the independent TLV reader.',
+                text='Differential simulation: each scenario is executed with envelopes kept and stripped and compared observable by observable; Nack reasons (also absent), fragment rejection (every FragIndex/FragCount combination), out-of-order headers and PIT-token echo are checked with the independent TLV reader; buffers handed to the face are re-checked at later sends (a transport may queue them un-copied).',
                 level='exploration', real=PIPE_REAL, stub=STUB_COMMON,
                 rule='seed -> scenario executed twice (envelopes kept / stripped) and compared observable by '
                      'observable; Nack reasons up to 2^64-1, fragmented envelopes, PIT tokens of length 0-40 on several '
@@ -89,7 +89,7 @@ CHECKS['C17'] = dict(
          'TLV reader, return value == status 200, one outstanding command at a time, strictly increasing timestamps (also across '
          'a reconnect), every declared route registered once on every connection that follows its declaration, and '
          'parse_response round trips. In a quarter of the runs the wall clock moves on between two consecutive reads; some runs '
-         'make a call before the application connects, or drop the connection right after the last start-up command. The wall clock ticks every 1 to 50 ms; faces are local or not (/localhost vs /localhop); prefixes are up to 70000 octets long; a prefix may be declared twice; a reconnect may be a second run_forever(), i.e. a new event loop (emulated: loop-bound primitives held from the previous run are bound elsewhere).',
+         'make a call before the application connects, or drop the connection right after the last start-up command. The wall clock ticks every 1 to 50 ms; faces are local or not (/localhost vs /localhop); prefixes are up to 70000 octets long; a prefix may be declared twice; a reconnect may be a second run_forever(), i.e. a new event loop (emulated: loop-bound primitives held from the previous run are bound elsewhere). A route may be declared while the start-up registrations of earlier routes are on their way (one declaration, one command); one caller may give up (its task is cancelled) while its call is queued, waiting for a new clock reading or in flight - the calls behind it must still get through.',
     note='Trusted: SimLoop, the independent TLV reader/writer, the fake forwarder. Backward wall-clock steps are not generated '
          '(the statement quantifies over calls at the same clock reading, not over clock steps); forward ticks between reads are.',
     real=REAL_COMMON + ['ndn.transport.nfd_registerer.NfdRegister', 'ndn.appv2.NDNApp', 'ndn.app.NDNApp (register/unregister/route)',
@@ -105,7 +105,7 @@ CHECKS['C19'] = dict(
     text='Seeded search over object sizes (unsegmented, 1-12 segments), discovery answers (any segment / unsegmented), '
          'FinalBlockId placement and per-segment reply patterns (lost, Nack, duplicate, delayed around the lifetime, rejected '
          'by the validator); oracle = reference walk of the retry policy: exact yielded sequence, exact terminating '
-         'exception, exact number of Interests the producer sees per segment (retry_times 0 to 4; the name given as string, list, wire, iterator or generator, or as the name of one segment). In 30% of the runs two or three fetches of the '
+         'exception, exact number of Interests the producer sees per segment (retry_times 0 to 4; the name given as string, list, wire, iterator or generator, or as the name of one segment; the object may be named by the root prefix, its Data carrying the empty name). In 30% of the runs two or three fetches of the '
          'same object, and plain consumers asking for its names, share one application and start at staggered times; there '
          'each fetch must still yield the object in order and completely, and must complete when no reply is lost or late.',
     note='Trusted: SimLoop, the scripted producer, the reference walk. Replies delayed to within 1.5 ms of (or beyond) the '
@@ -123,7 +123,7 @@ CHECKS['C18'] = dict(
     technique='deterministic simulation (virtual-time asyncio loop, simulated wall clock, scripted timer randomness) + '
               'reference state-vector model stepped with the same events',
     text='Seeded search over sequences of received vectors (newer, older, incomparable, over-claiming, malformed in 8 ways), '
-         'vectors listing a node twice, node ids in non-minimal TLV encoding, local publications (also while stopped), start/stop/back-to-back restart, intervals with the face down, raising application callbacks, sequence numbers up to 2**63, placed relative to the suppression timer the instance will sample; oracle = '
+         'vectors listing a node twice, node ids in non-minimal TLV encoding, local publications (also while stopped), start/stop/back-to-back restart, intervals with the face down, raising application callbacks, sequence numbers up to 2**63, an over-claiming vector heard again byte for byte after the node has caught up with the claim, placed relative to the suppression timer the instance will sample; oracle = '
          'entry-wise-max model checked after every handled Interest, monotonicity checked after every loop step, callback iff '
          'an entry was raised, publication emits the full vector promptly, suppression end emits iff local is newer than the '
          'merge of the vectors heard, and every emitted sync Interest has exactly one cause.',
@@ -168,7 +168,7 @@ CHECKS['C02'] = dict(
          'from the wire; one seeded mutation per packet in flight; acceptance must imply an unchanged signed portion and '
          'signature value; the parameters-digest check is compared with SHA-256(ApplicationParameters..end) on every Interest '
          'that crossed the link. Each mutated packet is also handed to parse + known-key verifier directly (the verifier on its own, '
-         'without the front-end dropping the packet first); a packet accepted under another name than the signed one is reported whatever the edit was.',
+         'without the front-end dropping the packet first); a packet accepted under another name than the signed one is reported whatever the edit was. One signer object per key signs all packets of a run; ECDSA packets are aimed at the 253 / 65536 Length boundaries so that the real signature, shorter than the reserved one, brings the outer Length back across; ECDSA signature values are re-encoded in flight ((r, n-s), non-minimal DER, long-form length, r+n) - acceptance of (r, n-s) is the open finding C02:...:signature-value-ecdsa-s-negated.',
     note='Trusted: the independent TLV reader (simkit/tlvref.py), pycryptodomex, SimLoop. The schedule dimension adds nothing to '
          'this property; the simulator contributes the corruption fault model and the end-to-end observation. Packets with an '
          'unrecognised element between SignatureInfo and SignatureValue are not judged (the two readings of "signed portion" differ).',
@@ -192,7 +192,7 @@ CHECKS['C15'] = dict(
          'transaction stays open) and once with a crash there (all steps, capped at 200 points): untouched entities must be '
          'unchanged, the views must stay consistent, repeating the failed operation must complete it or refuse cleanly on a '
          'store that already shows its full effect, and afterwards no listed key may lack its private key. Operations include '
-         'deletes through the Identity/Key views and default setters called with stale or foreign names.',
+         'deletes through the Identity/Key views, default setters called with stale or foreign names, and Identity/Key objects the client keeps across later deletes and creations (a view stays scoped to the owner it was obtained for).',
     note="Trusted: SQLite's own atomicity (a crash = uncommitted work disappears; torn database pages are not injected, torn "
          'private-key files are), the reference model, pycryptodomex. RSA key generation is served from a committed key pool; EC '
          'key generation and ECDSA nonces use a seeded random source. str-typed key/cert names in sign_args are not generated.',
